@@ -133,9 +133,12 @@ def pixel_values(rng, dt, stream, count, np):
     return out
 
 
-def make_info(dest, size, chunk, nch, dtype, sharding=None):
+def make_info(dest, size, chunk, nch, dtype, sharding=None, cseg_block=None):
     scale = {"key": "full", "size": list(size), "resolution": [1000, 1000, 1000], "voxel_offset": [0, 0, 0],
              "chunk_sizes": [list(chunk)], "encoding": "raw"}
+    if cseg_block:
+        scale["encoding"] = "compressed_segmentation"
+        scale["compressed_segmentation_block_size"] = list(cseg_block)
     if sharding:
         scale["sharding"] = sharding
     info = {"type": "image", "data_type": dtype, "num_channels": nch, "scales": [scale]}
@@ -425,7 +428,13 @@ def run(R):
             sharding = {"@type": "neuroglancer_uint64_sharded_v1", "minishard_bits": rng.choice([0, 1]),
                         "shard_bits": rng.choice([0, 1]), "hash": "identity", "minishard_index_encoding": "raw",
                         "data_encoding": "raw", "preshift_bits": rng.choice([0, 1])}
-        make_info(dest, size, chunk, nch, out_dt, sharding)
+        # label volumes: every other job whose data type allows it is stored with the compressed_segmentation
+        # encoding (one-voxel blocks make the same lookup table recur in several blocks and channels)
+        cseg_block = None
+        if out_dt in ("uint32", "uint64") and idx % 2 == 0:
+            cseg_block = [1, 1, 1] if idx % 4 == 0 else [2, 2, 2]
+            R.count(f"encoding:compressed_segmentation:{nch}ch")
+        make_info(dest, size, chunk, nch, out_dt, sharding, cseg_block)
         opts = []
         st = j["storage"]
         if "flat" in st:
